@@ -80,25 +80,28 @@ def loop_parts(fn, which=None):
     """the top-level `for ... in wg.firstlast` loop of fn, the statements before it and after it"""
     node, filename = I.SOURCES.funcdef(fn)
     loops = [n for n in node.body if isinstance(n, ast.For) and "firstlast" in ast.unparse(n.iter)]
-    assert len(loops) == 1, f"{fn.__qualname__}: expected exactly one top-level loop over the window generator"
+    if len(loops) != 1:
+        raise I.Unsupported(f"{fn.__qualname__}: cannot identify the top-level loop over the window generator (found {len(loops)})")
     loop = loops[0]
     return node, filename, node.body[:node.body.index(loop)], loop, node.body[node.body.index(loop) + 1:]
 
 
-def run_window(it, conv, info, j_name="j"):
+def run_window(it, conv, info, j_name="j", fn=None, extra_vars=None):
     """executes the statements of _process_NP24 up to the loop (with the early returns disabled by construction: not already
     processed, nothing exists) and then ONE iteration of the real loop body for a symbolic window index j"""
-    fn = neuropixel.NP2Converter._process_NP24
+    fn = fn or neuropixel.NP2Converter._process_NP24
     node, filename, before, loop, after = loop_parts(fn)
     it.session.note_function(fn)
-    env = I.Env(None, fn.__globals__, qualname="NP2Converter._process_NP24", filename=filename)
+    env = I.Env(None, fn.__globals__, qualname=fn.__qualname__, filename=filename)
     env.funcnode = node
     env.vars["self"] = conv
     env.vars["overwrite"] = False
+    env.vars.update(extra_vars or {})
     it.ctx.func = env.qualname
     # the prologue: `wg = WindowGenerator(...)` is the only statement that the loop needs; the guards before it are C04's business
     wg_stmt = [s for s in before if isinstance(s, ast.Assign) and isinstance(s.targets[0], ast.Name) and s.targets[0].id == "wg"]
-    assert len(wg_stmt) == 1, "_process_NP24: expected `wg = WindowGenerator(...)` before the loop"
+    if len(wg_stmt) != 1:
+        raise I.Unsupported(f"{fn.__qualname__}: cannot identify `wg = WindowGenerator(...)` before the window loop")
     it.exec_stmt(wg_stmt[0], env)
     sit = it.to_iterable(it.eval(loop.iter, env), env)
     Yf, Yl = sit.Y
